@@ -41,7 +41,7 @@ class C18(PureCheck):
     module = "QueryTrace"
     rule = ("(a) get_cursor_position on a scripted in_stream: reports with row/col in {1,9,10,123,65535} in 7-bit and 8-bit "
             "CSI form, preceded by every string of length <=4 over {x, ESC, [, 1, ;, R, newline} that contains no complete "
-            "report (quick: all <=3 + sampled 4), followed by trailing input, with 0..3 OSError faults at chosen read attempts, "
+            "report (quick: all <=3 + sampled 4), plus non-ASCII characters ahead of the report on utf-8 and latin-1 streams, followed by trailing input, with 0..3 OSError faults at chosen read attempts, "
             "with and without extra_bytes_callback; (b) get_cursor_vertical_diff with top_usable_row in -1..4, last cursor row "
             "None/0..4, 1..3 successive reported rows 0..5 and a nested call injected during the first or second query. "
             "distinct_nontrivial = distinct cases with non-empty extra, a fault, or a non-zero movement")
@@ -76,6 +76,15 @@ class C18(PureCheck):
                 faults = sorted(rng.sample(range(1, total), nf)) if nf else []
                 yield {"op": "query", "extra": enc.enc_text(ex), "row": r, "col": c, "csi8": csi8,
                        "trailing": enc.enc_text(tr), "faults": faults, "cb": int(k % 5 != 0)}
+        # characters outside ASCII typed ahead of the report, on utf-8 and latin-1 streams (7-bit reports on both)
+        for ex in ("\xe9", "x\xe9", "\xe9\x1b[1", "\xff\xe9", "\u20ac", "a\u65e5"):
+            for encname in ("utf-8", "latin-1"):
+                if encname == "latin-1" and any(ord(c) > 255 for c in ex):
+                    continue
+                for csi8 in ((0, 1) if encname == "latin-1" else (0,)):
+                    k += 1
+                    yield {"op": "query", "extra": enc.enc_text(ex), "row": vals[k % 5], "col": vals[(k // 2) % 5], "csi8": csi8,
+                           "trailing": enc.enc_text(trailings[k % 4]), "faults": [], "cb": 1, "enc": encname}
         rowsets = [[a] for a in range(6)] + [[a, b] for a in range(6) for b in range(6)] + \
                   [[a, b, c] for a in (0, 2, 5) for b in (1, 5) for c in (0, 3)]
         for top0 in range(-1, 5):
@@ -92,7 +101,8 @@ class C18(PureCheck):
         out = winlib.CaptureStream(24, 80)
         try:
             if inp["op"] == "query":
-                ins = ScriptIn("latin-1" if inp["csi8"] else "utf-8")
+                ins = ScriptIn(inp.get("enc") or ("latin-1" if inp["csi8"] else "utf-8"))
+                ev["enc"] = ins.encoding
                 report = ("\x9b" if inp["csi8"] else "\x1b[") + f"{inp['row']};{inp['col']}R"
                 ev["report"] = enc.enc_text(report)
                 ins.chars = list(enc.dec_text(inp["extra"]) + report + enc.dec_text(inp["trailing"]))
